@@ -418,8 +418,92 @@ def rule_shapes(repo, rep):
           rep.unknown(R5, key, s, 'value of n_features_in_ not derivable')
 
 
+def rule_class_codes_vs_values(repo, rep):
+  R = 'R-FRAME:class-position-is-not-the-label-value'
+  rep.rule(R, 'where a function enumerates the classes found by np.unique '
+           'with `for c in range(<number of classes>)`, the members of class '
+           'c are selected by comparing the labels with the c-th VALUE '
+           '(`y == values[c]`) or the inverse CODES with c (`codes == c`), '
+           'never the original labels with the position c: that is right '
+           'only for labels that happen to be 0..C-1, every other labelling '
+           'selects no (or the wrong) points')
+  n = 0
+  for f in repo.all_functions():
+    uniq = []          # (values name, original labels name, codes name|None)
+    for a in _ast.walk(f.node):
+      if isinstance(a, _ast.Assign) and isinstance(a.value, _ast.Call) and \
+              _canon(repo.dotted(f.module, a.value.func) or '') == \
+              _canon('numpy.unique') and a.value.args and \
+              isinstance(a.value.args[0], _ast.Name):
+        t = a.targets[0]
+        kws = [k.arg for k in a.value.keywords
+               if isinstance(k.value, _ast.Constant) and k.value.value]
+        if isinstance(t, _ast.Name):
+          uniq.append((t.id, a.value.args[0].id, None, a))
+        elif isinstance(t, _ast.Tuple) and t.elts and \
+                all(isinstance(e, _ast.Name) for e in t.elts):
+          codes = None
+          order = [k for k in ('return_index', 'return_inverse',
+                               'return_counts') if k in kws]
+          if 'return_inverse' in order and \
+                  len(t.elts) > 1 + order.index('return_inverse'):
+            codes = t.elts[1 + order.index('return_inverse')].id
+          uniq.append((t.elts[0].id, a.value.args[0].id, codes, a))
+    for (U, Y, I, stmt) in uniq:
+      if I == Y:
+        continue        # the labels name now holds the codes
+      # names holding the number of classes
+      counts = set()
+      for a in _ast.walk(f.node):
+        if isinstance(a, _ast.Assign) and isinstance(a.targets[0], _ast.Name) \
+                and _ast.unparse(a.value).replace(' ', '') in (
+                    'len(%s)' % U, '%s.shape[0]' % U, '%s.size' % U):
+          counts.add(a.targets[0].id)
+      for lp in _ast.walk(f.node):
+        if not (isinstance(lp, _ast.For) and isinstance(lp.target, _ast.Name)
+                and isinstance(lp.iter, _ast.Call) and
+                _ast.unparse(lp.iter.func) == 'range' and lp.iter.args):
+          continue
+        bound = _ast.unparse(lp.iter.args[-1]).replace(' ', '')
+        if not (bound in counts or bound in ('len(%s)' % U,
+                                             '%s.shape[0]' % U,
+                                             '%s.size' % U)):
+          continue
+        cvar = lp.target.id
+        for cmp_ in _ast.walk(lp):
+          if not (isinstance(cmp_, _ast.Compare) and len(cmp_.ops) == 1 and
+                  isinstance(cmp_.ops[0], (_ast.Eq, _ast.NotEq))):
+            continue
+          sides = [cmp_.left, cmp_.comparators[0]]
+          txt = [_ast.unparse(x) for x in sides]
+          if cvar not in txt:
+            continue
+          other = txt[1 - txt.index(cvar)]
+          n += 1
+          key = '%s:%s' % (f.key, _ast.unparse(cmp_)[:40])
+          if other == Y:
+            rep.refuted(R, key, site(f, cmp_), '%s compares the labels %s '
+                        'with the class position %s (np.unique values are '
+                        'in %s): correct only for labels 0..C-1'
+                        % (_ast.unparse(cmp_), Y, cvar, U))
+          elif I is not None and other == I:
+            rep.derived(R, key, site(f, cmp_))
+    # the value form y == U[c]
+    for (U, Y, I, stmt) in uniq:
+      for cmp_ in _ast.walk(f.node):
+        if isinstance(cmp_, _ast.Compare) and len(cmp_.ops) == 1 and \
+                isinstance(cmp_.ops[0], _ast.Eq):
+          txt = [_ast.unparse(cmp_.left), _ast.unparse(cmp_.comparators[0])]
+          if Y in txt and any(t.startswith(U + '[') for t in txt):
+            n += 1
+            rep.derived(R, '%s:%s' % (f.key, _ast.unparse(cmp_)[:40]),
+                        site(f, cmp_))
+  rep.floor('class-membership comparisons examined', n, 1)
+
+
 def check(repo, rep, tier):
   api.run_rule(repo, rep)
+  rule_class_codes_vs_values(repo, rep)
   rule_return_self_and_components(repo, rep)
   rule_real_components(repo, rep)
   rule_defassign(repo, rep)
